@@ -49,7 +49,8 @@ def log_digest(events):
         if t == "io":
             h.update(f'io {e["k"]} {e["op"]} {e["path"]} {e.get("n","")} {e.get("to","")} {e.get("data","")} {e.get("hex","")} {e.get("fault","")}\n'.encode())
         elif t == "resp":
-            h.update(f'resp {e["step"]} {e.get("stage")} {e.get("body")}\n'.encode())
+            body = e.get("body") or ""
+            h.update(f'resp {e["step"]} {e.get("stage")} {body}\n'.encode())
         elif t in ("gate", "release"):
             h.update(f'{t} {e.get("name")} {e.get("key")} {e.get("rule")} {e.get("parked")}\n'.encode())
         elif t in ("crash", "stuck", "advanced", "issue", "ready"):
